@@ -271,7 +271,9 @@ func unsatisfiedTerminal(ix *lifeIndex, d, cond string) *sim.Event {
 	}
 	switch cond {
 	case types.ProcessConditionCompletedSuccessfully:
-		if t.Code != 0 {
+		// a command that could not be started did not complete successfully,
+		// whatever exit code is reported for it
+		if t.Code != 0 || t.Str == types.ProcessStateError {
 			return t
 		}
 	case types.ProcessConditionHealthy, types.ProcessConditionLogReady:
@@ -539,6 +541,31 @@ func oracleShutdown(lr *LifeRun, ix *lifeIndex, r *fw.Result) {
 				is, ok := pl.InstSeq[l.Inst]
 				if !(ok && is > first && ix.apiCreated(n, is)) {
 					r.Add("C03", "launch-after-shutdown", "command of %s launched (seq %d) after ShutDownProject returned (seq %d) without a new start request", n, l.Seq, first)
+				}
+			}
+		}
+	}
+	// every shutdown request, not only the first: what was launched before the
+	// request must have exited when the request returns
+	for i := range ix.ev {
+		c := &ix.ev[i]
+		if c.Kind != sim.EvApiCall || c.Str != "shutdown" {
+			continue
+		}
+		ret := -1
+		for j := i + 1; j < len(ix.ev); j++ {
+			if ix.ev[j].Kind == sim.EvApiRet && ix.ev[j].Att == c.Seq && ix.ev[j].Str == "shutdown" {
+				ret = ix.ev[j].Seq
+				break
+			}
+		}
+		if ret < 0 {
+			continue
+		}
+		for _, n := range ix.names {
+			for _, l := range ix.procs[n].Launches {
+				if !l.Failed && l.Seq < c.Seq && (l.ExitSeq < 0 || l.ExitSeq > ret) {
+					r.Add("C03", "alive-after-shutdown-request-returned", "command of %s (attempt %d, launched seq %d) was still alive when the shutdown request issued at seq %d returned (seq %d)", n, l.Att, l.Seq, c.Seq, ret)
 				}
 			}
 		}
